@@ -44,6 +44,10 @@ def plan(tier, seed):
         shards.append(("neg", 5, 2, a, b))
     for a, b in E.chunks(E.n_graphs(4, 3), 250):
         shards.append(("bigint", 4, 3, a, b))
+    # two dense groups (4..14 samples each) that are nearer to each other than a stray sample is to
+    # either: the inter-group arc of the (unique) minimum spanning tree is among nobody's nearest arcs
+    shards.append(("groups", 4, 10))
+    shards.append(("groups", 10, 15))
     for a, b in E.chunks(E.n_graphs(4, 3), 250):
         shards.append(("semi", 3, 1, 3, True, a, b))
     for a, b in E.chunks(E.n_graphs(5, 2), 128):
@@ -58,6 +62,18 @@ warm = c01.warm
 def programs(shard, seed):
     if shard[0] == "sup":
         yield from c01.programs(shard[1:], seed)
+        return
+    if shard[0] == "groups":
+        sc = [1.0, 0.5, 2.0, 3.0][seed % 4] if seed else 1.0
+        for g in range(shard[1], shard[2]):
+            A = [[sc * (0.31 * (i % 4) + 0.011 * i * i), sc * (0.27 * (i // 4) + 0.007 * i)] for i in range(g)]
+            B = [[a[0] * 1.07 + sc * 10.23, a[1] * 0.93 + sc * 0.013] for a in A]    # not a translate: no ties
+            stray = [sc * 5.4, sc * 9.9]
+            for ls in (0, 1):
+                rows = [(p, 0) for p in A] + [(p, 1) for p in B] + [(stray, ls)]
+                for order in (rows, rows[::-1], [rows[-1]] + rows[:-1], rows[::2] + rows[1::2]):
+                    yield {"model": "SupervisedOPF", "mode": "features", "metric": "euclidean",
+                           "X": [r[0] for r in order], "labels": [r[1] for r in order]}
         return
     if shard[0] in ("neg", "bigint"):
         kind, n, m, a, b = shard
